@@ -139,3 +139,11 @@ PROPS["C07"] = e2("TestC07", "programmes drawn by rapid: 2-4 goroutines x 1-4 ca
 MANIFEST_TEXT["C07"] = dict(engine="E2", level_text="Exploration: schedules are sampled (Go scheduler, varied GOMAXPROCS, lock contention from event traffic), not enumerated; each sampled history is checked exhaustively for linearizability and the race detector watches every run.",
                             note="trusted: Go race detector; porcupine v1.3.0 linearizability checker; invoke/return stamps from one atomic counter; the filesystem objects named by the calls are static during the concurrent phase",
                             technique="property-based testing of concurrent programmes under -race with linearizability checking (porcupine) against the sequential model")
+
+PROPS["C14"] = e1("TestC14", GEN_RULE + "C14: Events capacity from {default,0,1,2,4,...,65536}; up to 7 other Watchers created with drawn capacities and given random Add/Remove/Close on the same directories during the history; "
+                  "absorb segments (buffered channel, nobody receiving, then exactly the expected events must be in the channel). non-trivial = >=1 other Watcher present and >=3 events delivered")
+MANIFEST_TEXT["C14"] = _e1("Exploration: cap(Events) must equal the request; the delivered sequence must equal the model sequence (which depends on neither the capacity nor other Watchers) for every capacity and any activity of up to 7 co-resident Watchers; absorb segments check that a buffered Watcher stores events with no consumer present.")
+PROPS["C19"] = e1("TestC19", "cases drawn by rapid (GenC19): three candidate roots r1, r10, q with initial trees whose names share prefixes (sub/sub2, a/ab, dir1/dir10, x/x-y), 1-3 of them added recursively; "
+                  "4-30 ops: mkdir one level (followed by sync), rename of an inner directory within its tree (sync), rmdir, file create/write/chmod/unlink/move at any depth in bursts (25% plugged), Remove of one of several roots. "
+                  "Oracle: shadow watch on every covered directory + the harness's own true-path bookkeeping. non-trivial = an inner directory rename or a root removal happened and >=2 events were delivered; distinct = skeleton")
+MANIFEST_TEXT["C19"] = _e1("Exploration of the unreleased recursive mode (enabled through the verif hook): expected Name = root spelling + true current relative path, kept by the harness through renames; coverage of new directories from their Create on; Remove(root) silences exactly that tree. mkdir -p bursts, cross-boundary moves and root renames are excluded as in the property.")
